@@ -7,6 +7,7 @@ Every token keeps its start offset so text can be sliced back out of the source.
 import re
 
 PUNCTS = [
+    "<==>", "=~~=", "==>", "<==", "=~=", "!==", "===", "&&&", "|||",   # Verus operators
     "<<=", "...", "..=",
     "::", "->", "=>", "==", "!=", "<=", ">=", "&&", "||", "+=", "-=", "*=", "/=", "%=", "^=",
     "&=", "|=", "<<", "..",
